@@ -519,6 +519,14 @@ Theorem C06_total_strict : forall T O, oracle_answers O -> forall s, url_or_pars
 Proof. exact url_init_total_strict. Qed.
 Print Assumptions C06_total_strict.
 
+(* find_all_links never raises: in the model of its match handling (parse, default-scheme re-parse, scheme
+   filter, error handler, text assembly), for every text, whatever the regular expression matched (spans) and
+   whatever the arguments, when every codec answers.  The regular expression itself is not modelled. *)
+Theorem C06_links_total : forall T O, oracle_answers O ->
+  forall with_text ds schemes t spans, exists items, find_all_links T O with_text ds schemes t spans = MOk items.
+Proof. exact find_all_links_total. Qed.
+Print Assumptions C06_links_total.
+
 (* NOT YET PROVED (full statements kept visible; Coq checks them on the implementation's
    observations for every generated case through parse_ok):
 
